@@ -255,7 +255,18 @@ def parse_line_uncached(text: str):
     try:
         data = fast_json.loads(text)
     except Exception:  # noqa
-        return ("junk",)
+        # The library's decoder refuses it.  If the text is nevertheless inside the RFC 8259 grammar (reference: the
+        # stdlib decoder with NaN / Infinity refused) it IS a JSON line - a lone surrogate escape, a number beyond the
+        # double range, nesting beyond one decoder's limit - and what it denotes is what the reference decoder says.
+        import json as _json
+
+        def _refuse(tok):
+            raise ValueError(tok)
+
+        try:
+            data = _json.loads(text, parse_constant=_refuse)
+        except Exception:  # noqa
+            return ("junk",)
     if isinstance(data, list):
         items = []
         for it in data:
@@ -470,12 +481,14 @@ async def _reader_case(mod, holder, case):
     entered = False
     try:
         cm, get = _open_client(mod, opts.get("api", "client"), case.get("server"))
-        n = int(opts.get("sessions", 1))
+        # "sessions": n = the same script n times; "session_events": [events, events, ...] = one script per session -
+        # always on the SAME client / transport object
+        scripts = case.get("session_events") or [case["events"]] * int(opts.get("sessions", 1))
         obs_all = []
-        for _ in range(n):
-            if opts.get("api") == "function" and obs_all:
-                cm, get = _open_client(mod, "function", case.get("server"))  # a generator-based context manager is single-use
-            obs_all.append(await _reader_session(mod, holder, case, cm, get))
+        for ev in scripts:
+            if opts.get("api") in ("function", "with_initialize") and obs_all:
+                cm, get = _open_client(mod, opts["api"], case.get("server"))  # a generator-based context manager is single-use
+            obs_all.append(await _reader_session(mod, holder, dict(case, events=ev), cm, get))
         entered = True
     except (Exception, _Cancelled()) as ex:  # noqa (a crashed task of the client cancels the host task too)
         return {"harness_error": type(ex).__name__, "entered": entered}
